@@ -176,7 +176,7 @@ func runC01(c *hc.Ctx) error {
 	c.CorrInit("Texel.Corr.C01", "theories/Corr/C01.v", 100)
 	c.Sum.Rule = "valid polygons (star, 2-opt, comb, sliver; 0-2 holes; either winding) on the quarter-pixel lattice of synthetic dyadic grids, windows 2-12 px at random quadtree alignments x random id subsets x 4 flag sets; distinct by (grid, polygon, ids, flags); non-trivial = polygon collapses somewhere (output vertex count differs from input or a ring is dropped) at some requested level"
 	c.Sum.Oracle = "exact integer test: no two edges of the geometries returned for one tile matrix cross in their interiors (all edge pairs)"
-	c.Sum.Partial = "the global implication 'valid input => no crossing output' (Guibas-Marimont deformation argument) is not a theorem; supporting lemmas are proved, the implication is decided by this search"
+	c.Sum.Partial = "on the class of C18 (no routed-and-cleaned ring passes a centre three times) 'valid input => no crossing output' is a theorem (C01_on_class: deformation argument, first contact over R + sweep lemma); beyond the class it is false in general (C01_refuted, finding F5) and is decided per polygon by this search"
 	grids := syntheticGrids()
 	if err := runCorpus(c, evalC01); err != nil {
 		return err
